@@ -66,6 +66,25 @@ class Rec:
             self.samples.append(obj)
         return True
 
+    def each(self, items, fn):
+        """Run fn(item) for the items of a batch: a path cap or a lost encoding in one item does not hide the others."""
+        first = None
+        for it in items:
+            if self.stats.stop:
+                break
+            try:
+                fn(it)
+            except core.PathCap as ex:
+                self.inconclusive.append(f"{it.get('name')}: path cap: {ex}")
+            except (KeyboardInterrupt, SystemExit):
+                raise
+            except BaseException as ex:  # noqa: BLE001 - engine exceptions are BaseException
+                core.Ctx.cur = None
+                if first is None:
+                    first = ex
+        if first is not None:
+            raise first
+
     # ---- deciding
     def check(self, ctx, name, goal, fingerprint=None, witness=None, extra=(), timeout_ms=None):
         """One obligation: pc ∧ assumptions ⇒ goal.  Returns True iff unsat (proved on this path)."""
